@@ -11,7 +11,7 @@ from ..kernel import SimAbort
 ID = "C07"
 LEVEL = "exploration"
 RULE = ("scenario = legal frame stream with 0..6 pings (payload 0..125 arbitrary bytes; empty and maximal emphasised) "
-        "before, between and inside fragmented messages, consecutive pings, pongs and data that must draw no reply, "
+        "before, between and inside fragmented messages (and floods of 300..5000 pings consumed inside one receive call), consecutive pings, pongs and data that must draw no reply, "
         "read with recv / recv_data / recv_data_frame with and without control-frame reporting, under seeded "
         "chunking and short writes while the pong is being written; oracle on the global event order: once the recv "
         "that hands over the last byte of ping i has returned, the client's next transport operations are sends that "
@@ -77,10 +77,19 @@ def plan(tier, seed):
     per = 500 if tier == "quick" else 4000
     for s in range(0, n, per):
         items.append({"kind": "rand", "start": s, "count": per})
+    for nn in ((300, 1100, 2500) if tier == "quick" else (300, 900, 1000, 1100, 2500, 5000)):
+        items.append({"kind": "flood", "n": nn})
     return items
 
 
 def expand(item, seed):
+    if item["kind"] == "flood":
+        for pos in ("idle", "inside"):
+            for api in ("recv", "recv_data", "recv_data_frame"):
+                for ln in (0, 4):
+                    yield {"flood": {"n": item["n"], "len": ln, "pos": pos}, "frames": [], "api": api, "sizes": [], "accept": [],
+                           "accept_cyclic": False, "seed": 1, "logtrace": ln == 4 and api == "recv"}
+        return
     if item["kind"] == "lengths":
         for n in range(126):
             p = {"fin": 1, "op": 9, "hex": bytes((n + i) & 0xFF for i in range(n)).hex()}
@@ -97,9 +106,22 @@ def expand(item, seed):
             yield gen(random.Random(derive_seed(seed, ID, i)))
 
 
+def _flood(fl):
+    """'any number of pings': n pings in a row in front of / inside one message, all consumed inside one receive call."""
+    n, ln, pos = int(fl["n"]), int(fl.get("len", 0)), fl.get("pos", "idle")
+    if not 1 <= n <= 6000 or not 0 <= ln <= 125 or pos not in ("idle", "inside"):
+        raise InvalidScenario("flood")
+    pings = [{"fin": 1, "op": 9, "hex": (i.to_bytes(4, "big") * 32)[:ln].hex()} for i in range(n)]
+    if pos == "idle":
+        return pings + [{"fin": 1, "op": 1, "hex": "6f6b"}]
+    return [{"fin": 0, "op": 2, "hex": "01"}] + pings + [{"fin": 1, "op": 0, "hex": "02"}]
+
+
 def run(sc, choices=None):
     res = Result()
     try:
+        if sc.get("flood"):
+            sc = dict(sc, frames=_flood(sc["flood"]))
         stream, frames = frames_from(sc["frames"])
         api = sc["api"]
         cfg = {"api": api, "timeout": 4 * S, "end": "eof", "sizes": list(sc.get("sizes", ())),
@@ -239,6 +261,6 @@ def _judge_threaded(res, out, frames, app_msgs, api, sc):
 
 
 def sample_view(sc, r):
-    return {"api": sc["api"], "frames": [[f["fin"], f["op"], len(f["hex"]) // 2] for f in sc["frames"]],
+    return {"api": sc["api"], "ping_flood": sc.get("flood"), "frames": [[f["fin"], f["op"], len(f["hex"]) // 2] for f in sc["frames"][:40]],
             "chunk_sizes": sc.get("sizes"), "short_write_pattern": sc.get("accept"), "send_would_block_at_calls": sc.get("send_eagain"),
             "concurrent_sender": sc.get("sender"), "policy": sc.get("policy")}
